@@ -1,6 +1,6 @@
 (* C01 on a class of workflows, for every run: a workflow of steps whose acts are interactive (irq) acts -- no conditions,
    branches, catches, timeouts, setup, hooks or function acts -- driven by any schedule and by accepted or rejected
-   complete / submit / remove actions, is never stuck: whenever nothing is queued and the process has not ended, some act is
+   complete / submit / remove / skip actions, is never stuck: whenever nothing is queued and the process has not ended, some act is
    waiting for a client.  No fuel hypothesis: in this class the review chain is at most act -> step -> workflow deep. *)
 From Coq Require Import List Arith ZArith Bool Lia Permutation.
 Import ListNotations.
@@ -171,7 +171,7 @@ Qed.
 
 (* ---------- the invariants ---------- *)
 Definition okst (s : TaskState) : bool :=
-  match s with SNone | SReady | SRunning | SInterrupt | SCompleted | SSubmitted | SRemoved => true | _ => false end.
+  match s with SNone | SReady | SRunning | SInterrupt | SCompleted | SSubmitted | SRemoved | SSkipped => true | _ => false end.
 Definition opn (e : eng) (t : nat) : Prop := is_completed (st e t) = false.
 (* why an open task is not forgotten: it is queued, or it waits for a client, or it runs over an open task of its own *)
 Definition clause (e : eng) (t : nat) : Prop :=
@@ -186,7 +186,7 @@ Record SIa (e : eng) : Prop := {
   sia_oof : oof e = false;
   sia_nh : nohooks e;
   sia_task : forall t, t < ntasks e -> okst (st e t) = true /\ t_nid (tk e t) < length (nodes e) /\
-                                     (kind e t = KAct -> st e t <> SPending) /\ (0 < t -> kind e t <> KWorkflow);
+                                     (kind e t <> KAct -> st e t <> SSkipped) /\ (0 < t -> kind e t <> KWorkflow);
   sia_root : 0 < ntasks e /\ t_prev (tk e 0) = None /\ t_nid (tk e 0) = 0;
   sia_prev : forall t, 0 < t -> t < ntasks e -> exists q, t_prev (tk e t) = Some q /\ q < t /\ st e q <> SNone /\
                ((kind e q <> KAct /\ kind e t = child_kind (kind e q)) \/ (kind e t = kind e q /\ is_completed (st e q) = true));
@@ -304,10 +304,11 @@ Proof. unfold set_state. destruct (negb _); [auto|]. destruct (_ && _); auto. Qe
 
 (* writing a state s to task i: the structural invariant, given what s may be *)
 Lemma SIa_ss site e i s : SIa e -> i < ntasks e -> okst s = true -> s <> SNone ->
+  (kind e i <> KAct -> s <> SSkipped) ->
   (is_completed s = false -> is_completed (st e i) = false /\ ~ In i (queue e)) ->
   SIa (set_state site e i s).
 Proof.
-  intros H Hi Hok Hnn Hopen. pose proof (sameS_set_state site e i s) as HS.
+  intros H Hi Hok Hnn Hsk Hopen. pose proof (sameS_set_state site e i s) as HS.
   destruct (misc_ss site e i s) as (Mn & Mx & Mo).
   constructor.
   - rewrite Mn. apply H.
@@ -316,7 +317,7 @@ Proof.
   - intros t. rewrite tk_set_state. destruct (_ && _); [|apply (sia_nh e H t)]. cbn [t_hooks t_evproc]. apply (sia_nh e H i).
   - intros t Ht. rewrite ntasks_set_state in Ht. rewrite (sameS_kind _ _ t HS), Mn. destruct HS as (_ & _ & HS). destruct (HS t) as [-> _].
     rewrite (st_ss site e i s t Hi). destruct (sia_task e H t Ht) as (A & B & C & D).
-    destruct (Nat.eqb_spec t i) as [->|]; auto. split; [exact Hok|]. split; [exact B|]. split; [intros _ Hs; subst s; discriminate | exact D].
+    destruct (Nat.eqb_spec t i) as [->|]; auto.
   - rewrite ntasks_set_state. destruct HS as (_ & _ & HS). destruct (HS 0) as [-> ->]. apply H.
   - intros t Ht0 Ht. rewrite ntasks_set_state in Ht. destruct (sia_prev e H t Ht0 Ht) as (q & A & B & C & D). exists q.
     rewrite !(sameS_kind _ _ _ HS). destruct HS as (_ & _ & HS). destruct (HS t) as [_ ->].
@@ -514,11 +515,12 @@ Proof.
 Qed.
 (* writing a state to task i *)
 Lemma SI_ssR site e i s : SI e -> i < ntasks e -> okst s = true -> s <> SNone ->
+  (kind e i <> KAct -> s <> SSkipped) ->
   (is_completed s = false -> is_completed (st e i) = false /\ ~ In i (queue e)) ->
   (s <> SRunning -> nochild e i) ->
   SI (set_state site e i s).
 Proof.
-  intros H Hi Hok Hnn Hopen Hkids. pose proof (sameS_set_state site e i s) as HS.
+  intros H Hi Hok Hnn Hsk Hopen Hkids. pose proof (sameS_set_state site e i s) as HS.
   assert (Ho : forall j, opn (set_state site e i s) j -> opn e j).
   { intros j. unfold opn. rewrite (st_ss site e i s j Hi). destruct (Nat.eqb_spec j i) as [->|]; [|auto]. intros Hs. now apply Hopen. }
   constructor; [apply SIa_ss; auto; apply (si_a e H) | |].
@@ -529,11 +531,11 @@ Proof.
     apply (si_one e H j1 j2 p); auto.
 Qed.
 Lemma SI_ss site e i s : SI e -> i < ntasks e -> okst s = true -> s <> SNone ->
-  (kind e i = KAct -> s <> SRunning) ->
+  (kind e i <> KAct -> s <> SSkipped) ->
   (is_completed s = false -> is_completed (st e i) = false /\ ~ In i (queue e)) ->
   (s <> SRunning -> nochild e i) ->
   SI (set_state site e i s).
-Proof. intros H Hi Hok Hnn _ Hopen Hkids. now apply SI_ssR. Qed.
+Proof. intros H Hi Hok Hnn Hsk Hopen Hkids. now apply SI_ssR. Qed.
 (* starting a task: the parent of the new task is running and has no other open task *)
 Lemma SI_spawn v e nid p : SI e -> p < ntasks e -> nid < length (nodes e) -> st e p <> SNone ->
   ((kind e p <> KAct /\ n_kind (nd e nid) = child_kind (kind e p) /\ st e p = SRunning /\ nochild e p) \/
@@ -590,7 +592,7 @@ Proof.
   apply (clause_new e p c); auto. apply (parent_child e c p (si_a e H)); auto; lia.
 Qed.
 Lemma is_refl s : is s s = true. Proof. destruct s; reflexivity. Qed.
-Lemma okst_open s : okst s = true -> is s SPending = false /\ is s SSkipped = false /\ is s SError = false.
+Lemma okst_open s : okst s = true -> is s SPending = false /\ is s SError = false.
 Proof. destruct s; simpl; intros; try discriminate; auto. Qed.
 
 Lemma nochild_teq e e' p : teq e e' -> nochild e p -> nochild e' p.
@@ -623,7 +625,9 @@ Proof.
   assert (S0 : forall t, st e0 t = st e t) by (intros t; now apply teq_st).
   assert (K0 : kind e0 p = kind e p) by (now apply teq_kind).
   destruct (si_task e0 H0 p Hp0) as (Hok & Hnid & Hact & Hwf).
-  destruct (okst_open _ Hok) as (Epend & Eskip & Eerr).
+  destruct (okst_open _ Hok) as (Epend & Eerr).
+  assert (Eskip : is (st e0 p) SSkipped = false).
+  { destruct (si_task e0 H0 p Hp0) as (_ & _ & Hsk & _). rewrite K0 in Hsk. specialize (Hsk Hna). destruct (st e0 p); simpl; congruence. }
   (* when p is not running nothing is excused *)
   assert (Hnr : st e p <> SRunning -> Good e0).
   { intros Hn. split; [exact H0|]. apply (PX_weaken _ _ _ HP0). intros t [-> Hr] _ _. contradiction. }
@@ -800,17 +804,31 @@ Qed.
 
 (* ---------- a client closes an act ---------- *)
 Lemma next_closed_act F cv e i : SI e -> i < ntasks e -> kind e i = KAct ->
-  (st e i = SCompleted \/ st e i = SSubmitted \/ st e i = SRemoved) ->
+  (st e i = SCompleted \/ st e i = SSubmitted \/ st e i = SRemoved \/ st e i = SSkipped) ->
   PX (fun t => parent e i = Some t /\ st e t = SRunning) e ->
   (forall pp, parent e i = Some pp -> st e pp = SRunning /\ nochild e pp) -> 4 <= F -> Good (next F cv e i).
 Proof.
   intros H Hi Hk Hs HP Hpar HF. destruct F as [|f]; [lia|]. rewrite next_S. rewrite Hk.
-  assert (Hc : is_completed (st e i) = true) by (destruct Hs as [-> | [-> | ->]]; reflexivity).
+  assert (Hc : is_completed (st e i) = true) by (destruct Hs as [-> | [-> | [-> | ->]]]; reflexivity).
   assert (Hkw : kind e i <> KWorkflow) by (rewrite Hk; discriminate).
   assert (Hlv : lvl_of (kind e i) + 1 <= f) by (rewrite Hk; cbn [lvl_of]; lia).
   assert (Tnone : Good (tail f cv e i None)) by (apply tail_good; auto).
   unfold tail in Tnone. cbv beta iota zeta in Tnone.
-  destruct Hs as [Hs | [Hs | Hs]]; rewrite Hs in *; cbn [is_next is_skip is_running is_removed is_success orb is TaskState_beq nkind_beq andb].
+  assert (Hnext : forall sx, st e i = sx -> (sx = SCompleted \/ sx = SSkipped) ->
+            Good (let '(isn, e1) := match n_next (tnode e i) with Some nx => (true, sched_next e nx i) | None => (false, e) end in
+                  if is_completed (st e1 i)
+                  then let e2 := emit f (update_data e1 i cv) i in
+                       if negb isn && negb (t_evproc (tk e2 i)) then match parent e2 i with Some p => review f cv i e2 p | None => e2 end else e2
+                  else e1)).
+  { intros sx Hsx1 Hsx. destruct (n_next (tnode e i)) as [nx|] eqn:Enx.
+    + assert (T : Good (tail f cv e i (Some nx))) by (apply tail_good; auto).
+      unfold tail in T. cbv beta iota zeta in T. cbv beta iota zeta.
+      assert (E : is_completed (st (sched_next e nx i) i) = true).
+      { unfold sched_next. rewrite st_spawn. destruct (Nat.eqb_spec i (ntasks e)); [lia | exact Hc]. }
+      rewrite E. exact T.
+    + cbv beta iota zeta. rewrite Hc. exact Tnone. }
+  destruct Hs as [Hs | [Hs | [Hs | Hs]]]; [| | | rewrite Hs; cbn [is_next is_skip is_running is_removed is_success orb is TaskState_beq nkind_beq andb]; apply (Hnext SSkipped Hs); auto];
+  rewrite Hs in *; cbn [is_next is_skip is_running is_removed is_success orb is TaskState_beq nkind_beq andb].
   - destruct (n_next (tnode e i)) as [nx|] eqn:Enx.
     + assert (T : Good (tail f cv e i (Some nx))) by (apply tail_good; auto; rewrite Hs; reflexivity).
       unfold tail in T. cbv beta iota zeta in T. cbv beta iota zeta.
@@ -823,19 +841,18 @@ Proof.
 Qed.
 
 Lemma Prog_close_act site e i s : Good e -> i < ntasks e -> opn e i -> kind e i = KAct ->
-  (s = SCompleted \/ s = SSubmitted \/ s = SRemoved) ->
+  (s = SCompleted \/ s = SSubmitted \/ s = SRemoved \/ s = SSkipped) ->
   let e1 := set_state site e i s in
   SI e1 /\ PX (fun t => parent e1 i = Some t /\ st e1 t = SRunning) e1 /\ st e1 i = s /\ kind e1 i = KAct /\ i < ntasks e1 /\
   (forall pp, parent e1 i = Some pp -> st e1 pp = SRunning /\ nochild e1 pp).
 Proof.
   intros [H P] Hi Ho Hk Hs e1.
-  assert (Hc : is_completed s = true) by (destruct Hs as [-> | [-> | ->]]; reflexivity).
-  assert (Hok : okst s = true) by (destruct Hs as [-> | [-> | ->]]; reflexivity).
+  assert (Hc : is_completed s = true) by (destruct Hs as [-> | [-> | [-> | ->]]]; reflexivity).
+  assert (Hok : okst s = true) by (destruct Hs as [-> | [-> | [-> | ->]]]; reflexivity).
   assert (HS : sameS e e1) by apply sameS_set_state.
   assert (H1 : SI e1).
   { apply SI_ss; auto.
-    - destruct Hs as [-> | [-> | ->]]; discriminate.
-    - intros _. destruct Hs as [-> | [-> | ->]]; discriminate.
+    - destruct Hs as [-> | [-> | [-> | ->]]]; discriminate.
     - intros Hf. congruence.
     - intros _. apply nochild_act; [apply (si_a e H) | exact Hk]. }
   split; [exact H1|]. split; [|split; [|split; [|split]]].
@@ -846,6 +863,24 @@ Proof.
   - now rewrite (sameS_kind _ _ i HS).
   - unfold e1. now rewrite ntasks_set_state.
   - intros pp Hpp. rewrite (sameS_parent _ _ i HS) in Hpp. now apply (after_close site e i s pp H Hi Ho Hc).
+Qed.
+(* skip closes the open siblings first: in this class there are none (one open task per parent) *)
+Lemma siblings_closed e i : SI e -> i < ntasks e -> opn e i -> forall j, In j (siblings e i) -> is_completed (st e j) = true.
+Proof.
+  intros H Hi Ho j Hj. unfold siblings in Hj. destruct (parent e i) as [p|] eqn:Ep; [|destruct Hj].
+  apply filter_In in Hj as [Hc Hne]. apply negb_true_iff in Hne. apply Nat.eqb_neq in Hne.
+  destruct (is_completed (st e j)) eqn:Eo; [reflexivity|]. exfalso.
+  pose proof (si_up e H i p Hi Ep Ho) as Hr.
+  pose proof (children_lt _ _ _ Hc) as Hcn. pose proof (children_prev _ _ _ Hc) as Hpr. pose proof (children_gt _ _ _ (SI_W e H) Hc) as Hgt.
+  destruct (si_prev e H j ltac:(lia) Hcn) as (q & A & B & C & D). rewrite Hpr in A. inversion A; subst q.
+  destruct D as [[D1 D2] | [_ D2]]; [|rewrite Hr in D2; discriminate].
+  assert (Hpj : parent e j = Some p) by (apply (parent_child e j p (si_a e H)); auto; lia).
+  apply Hne. apply (si_one e H j i p); auto.
+Qed.
+Lemma close_open_noop site e l s : (forall j, In j l -> is_completed (st e j) = true) -> close_open site e l s = e.
+Proof.
+  intros Hl. unfold close_open. induction l as [|a l IH]; cbn [fold_left]; [reflexivity|].
+  rewrite (Hl a (or_introl eq_refl)). apply IH. intros; apply Hl; now right.
 Qed.
 Lemma fuel_ge e : exists f, fuel_of e = S (S (S (S f))). Proof. unfold fuel_of. eexists. cbn [Nat.add]. reflexivity. Qed.
 Lemma teq_ret_ok e : teq e (ret_ok e). Proof. unfold ret_ok. eapply teq_trans; [apply teq_persist | apply teq_add_ev]. Qed.
@@ -872,6 +907,9 @@ Proof.
   - destruct (Prog_close_act 23 e i SSubmitted G Hi Eo Ek ltac:(auto)) as (H1 & P1 & S1 & K1 & L1 & Q1).
     apply (Good_teq _ _ (teq_ret_ok _)). apply next_closed_act; [exact H1 | exact L1 | exact K1 | rewrite S1; auto | exact P1 | exact Q1 | rewrite Hf; lia].
   - destruct (Prog_close_act 24 e i SRemoved G Hi Eo Ek ltac:(auto)) as (H1 & P1 & S1 & K1 & L1 & Q1).
+    apply (Good_teq _ _ (teq_ret_ok _)). apply next_closed_act; [exact H1 | exact L1 | exact K1 | rewrite S1; auto | exact P1 | exact Q1 | rewrite Hf; lia].
+  - rewrite (close_open_noop 26 e (siblings e i) SSkipped) by (apply siblings_closed; [apply G | exact Hi | exact Eo]).
+    destruct (Prog_close_act 25 e i SSkipped G Hi Eo Ek ltac:(auto)) as (H1 & P1 & S1 & K1 & L1 & Q1).
     apply (Good_teq _ _ (teq_ret_ok _)). apply next_closed_act; [exact H1 | exact L1 | exact K1 | rewrite S1; auto | exact P1 | exact Q1 | rewrite Hf; lia].
 Qed.
 
@@ -1075,7 +1113,7 @@ Lemma run_state f e1 i k : (k = KWorkflow \/ k = KStep) -> SI e1 -> PX (fun t =>
 Proof.
   intros Hk H1 P1 Hi1 S1 K1 Q1 C1 e2. unfold e2, exec_run.
   set (er := set_state 7 e1 i SRunning).
-  assert (Hr : SI er) by (apply SI_ss; auto; try discriminate; [destruct Hk as [-> | ->]; rewrite K1; discriminate | intros _; rewrite S1; auto | intros Hx; now destruct Hx]).
+  assert (Hr : SI er) by (apply SI_ss; auto; try discriminate; [intros _; rewrite S1; auto | intros Hx; now destruct Hx]).
   assert (Pr : PX (fun t => t = i) er) by (apply PX_open; auto).
   assert (Sr : st er i = SRunning) by (unfold er; now rewrite (st_ss 7 e1 i SRunning i Hi1), Nat.eqb_refl).
   assert (HSr : sameS e1 er) by apply sameS_set_state.
@@ -1473,13 +1511,13 @@ Definition w_seq := wf [Tree.Step 1 None None [] [] [] [] [Tree.Act 2 None irq [
                         Tree.Step 4 None None [] [] [] [] [Tree.Act 5 None irq [] [] None [] [] []] [] []].
 Lemma w_seq_in_class : option_map frag_nodes (Tree.build_tree 30 w_seq) = Some true.
 Proof. vm_compute. reflexivity. Qed.
-Definition ops_seq := [OAct 2 ANext []; ODrain; OAct 4 ASubmit [(5, VNum 7)]; OSched 0; OAct 6 ARemove []; ODrain].
+Definition ops_seq := [OAct 2 ANext []; ODrain; OAct 4 ASubmit [(5, VNum 7)]; OSched 0; OAct 6 ASkip []; ODrain].
 Lemma ops_seq_in_class : forallb frag_op ops_seq = true. Proof. reflexivity. Qed.
 (* at rest after the start: unfinished, act 2 waits; after the whole history the process has completed *)
 Lemma w_seq_runs :
   option_map (fun e => (queue e, pstate e, st e 2)) (go w_seq []) = Some ([], SRunning, SInterrupt) /\
   option_map (fun e => (queue e, pstate e, map (fun t => st e t) (all_tasks e))) (go w_seq ops_seq)
-    = Some ([], SCompleted, [SCompleted; SCompleted; SCompleted; SCompleted; SSubmitted; SCompleted; SRemoved]).
+    = Some ([], SCompleted, [SCompleted; SCompleted; SCompleted; SCompleted; SSubmitted; SCompleted; SSkipped]).
 Proof. split; vm_compute; reflexivity. Qed.
 Theorem go_never_stuck w ops : option_map frag_nodes (Tree.build_tree 30 w) = Some true -> forallb frag_op ops = true ->
   option_map stuck (go w ops) = Some false.
@@ -1520,3 +1558,8 @@ Theorem sequential_interactive_hierarchy ns c0 ops : frag_nodes ns = true -> for
   let e := run ns c0 ops in
   open_under_completed e = false /\ (is_completed (st e 0) = true -> forall j, j < ntasks e -> is_completed (st e j) = true).
 Proof. intros F Hops e. apply good_hierarchy. apply (run_good ns c0 ops F Hops). Qed.
+
+(* the fuel of the model is never exhausted on the class, and no operation ends in the scheduler's error path *)
+Theorem class_runs_total ns c0 ops : frag_nodes ns = true -> forallb frag_op ops = true ->
+  oof (run ns c0 ops) = false /\ exn (run ns c0 ops) = false.
+Proof. intros F Hops. destruct (run_good ns c0 ops F Hops) as [H _]. split; [apply (si_oof _ H) | apply (si_exn _ H)]. Qed.
